@@ -65,6 +65,26 @@ assumption* (`_tv` / `_spec`); the only iteration is the fixpoint of `_resolve` 
       only paths through tests the rule cannot classify lead to another exit the obligation is undecided.  Lemmas: a
       parsed message is not an instance of bytes/bytearray/memoryview/str; an instance of a class that defines neither
       `__bool__` nor `__len__` (checked on HttpDataTransform) is truthy and is not None.
+* R9  1 (the `<c2http>.<route>.transform(..)` call located through the decoder attribute; callees resolved: package
+      functions / classes are "helpers not seen into", everything else is a candidate for the sending call; the field
+      names are read off the NamedTuple declaration of HttpRequest - device 5, the code's own finite vocabulary);
+      3 (def-use: which expressions denote the transformed request is decided by reaching definitions - the local is
+      re-bound to the response later on -, single-definition temporaries and the elements of unpacked values are
+      substituted into the arguments of every call, and the fields of the request read anywhere inside are collected).
+      The sending call is the candidate - result used, i.e. not a bare expression statement such as a log call - that
+      receives the most fields.  Verdict: a field it does not receive and that is read nowhere else (apart from log
+      statements and stores into locals nothing reads) is a violation; when the missing field is read by another
+      statement / test, the request is passed on as a whole or handed to a package helper, the obligation is undecided.
+* R10 1 (HttpRequest(..)/HttpResponse(..) constructions resolved, `body` / `headers` bound to their fields; the
+      `<headers>[<name>] = <value>` stores); 3 (def-use substitution of single-definition locals and of the elements of an
+      unpacked value down to `<s>.partition/rpartition/split/rsplit(<constant sep>[, n])[i]` or a slice of <s> at
+      `<s>.find/index/rfind/rindex(<constant sep>)` [+ len(sep)]; conditional expressions judged per non-constant
+      alternative).  Lemma (the documented result shape of the str/bytes methods, `_cut_class`): partition(sep)[0] / [2]
+      are the text before / everything after the first sep; split(sep, 1)[0] / [1] the same; rpartition and rsplit(sep, 1)
+      cut at the last sep; without a limit (or with a limit above 1) element 0 of split(sep) is the text before the first
+      sep and every other element is a piece between two separators; `s[:s.find(sep)]` / `s[s.find(sep) + len(sep):]`
+      are the first-separator cuts, with rfind/rindex the last-separator cuts.  A located cut of another class than the
+      required one is a violation, any other expression undecided.  No string is ever split by the checker.
 * R6  obligations of `rules.c04.run`, R7 obligations of `rules.c19.r5`, imported unchanged - their technique is stated
       in (and audited with) those modules.
 """
@@ -430,10 +450,15 @@ def run(ctx):
         "dominance of the key-material validation over the key attributes; the transforms, keys and framing the client "
         "uses to build requests vs. the ones the decoder uses; completeness of the router (a request with the verb and URI "
         "prefix of a route reaches that route's transform whatever the other route's verb/URI tests say - the verbs may be "
-        "equal - and a response reaches the response transform). Whole-session histories are not decided."
+        "equal - and a response reaches the response transform); the flow of every field of the request the client's transform "
+        "returned (method, uri, params, headers, body) into the call that sends it; the cuts parse_raw_http makes (body = everything "
+        "after the first blank line, header name / value = the text before / everything after the first `: ` of the line). "
+        "Whole-session histories are not decided."
     )
     rep.not_decided = ["whole-session decoding over all interleavings", "metadata_cache / beacon_keys evolution over time", "packet contents",
-                       "which transform is chosen for a request that matches both request routes (same verb, one URI a prefix of the other)"]
+                       "which transform is chosen for a request that matches both request routes (same verb, one URI a prefix of the other)",
+                       "what the HTTP client library emits for the arguments it is given (header order, encoding of the query) and how the peer captures it",
+                       "the splitting of the header block into lines and of the start line into its three parts"]
     rep.trusted_base = [
         "CPython ast", "networkx dominators",
         "named assumptions of R3 (key material truthy/falsy; key not None with len != 16) decide only `x`, `x is (not) None` and `len(x) ==/!= 16` tests - a truthy value is not None",
@@ -443,6 +468,12 @@ def run(ctx):
         "the message is a HttpResponse) decide only isinstance tests on the message, `method ==/!= <verb attribute>` and `uri.startswith(<URI attribute>)`; "
         "every such assignment is realisable since verbs and URIs are free profile strings",
         "lemma: a parsed message is not bytes/bytearray/memoryview/str; HttpDataTransform defines neither __bool__ nor __len__ (checked), so a transform is truthy and not None",
+        "R9: the call that sends the request is the non-package call with a used result that receives the most fields of the transformed request; "
+        "what the HTTP library does with its arguments is not analysed",
+        "lemma (R10): the documented result shapes of partition/rpartition/split/rsplit/find/rfind on str/bytes - partition(sep)[2] and split(sep, 1)[1] are "
+        "everything after the FIRST sep, rpartition/rsplit(sep, 1) cut at the LAST sep, element i >= 1 of an unlimited split is a piece between two separators",
+        "R10: a header name contains no `: ` and the message head no blank line (HTTP framing), so the first separator is the framing one; "
+        "header values and the body are payload and may contain the separator",
         "R6/R7 are the obligations of rules.c04 / rules.c19.r5 (their trusted base applies)",
     ]
     r1(ctx)
@@ -451,6 +482,8 @@ def run(ctx):
     r4(ctx)
     r5(ctx)
     r8(ctx)
+    r9(ctx)
+    r10(ctx)
     # the traffic decoder is only as good as the transform layer it routes to: C04's obligations on
     # HttpDataTransform.transform/recover are necessary conditions of C07 as well
     from rules import c04
@@ -1488,6 +1521,350 @@ def r8(ctx):
         _emit(ctx, "R8", "EXIT", f, f"complete: request with {' and '.join(_atom_text(k) for k in mine)} -> {route}", verdict, detail)
     verdict, detail = judge([("a HttpResponse; nothing assumed about verb / URI tests", {("is", _REQ): False, ("is", _RESP): True})], "self.transform_response")
     _emit(ctx, "R8", "EXIT", f, "complete: response -> self.transform_response", verdict, detail)
+
+
+# ---------------------------------------------------------------------------- R9: the whole transformed request is sent
+def _request_fields(ctx):
+    """Field names of the HttpRequest NamedTuple in declaration order (the places a transform can put data)."""
+    try:
+        return [n for n, _d in _fields(ctx, "c2.HttpRequest")]
+    except Exception:
+        return []
+
+
+def _sent_request(ctx, f, stores, route, fields):
+    """Def-use flow of the request produced by `<c2http>.<route>.transform(..)` in client method f into the call that
+    puts it on the wire.  Result (verdict, detail, node)."""
+    calls, other = _transform_calls(ctx, f, stores)
+    calls = [(c, ic) for c, ic, a in calls if a == route]
+    if len(calls) != 1:
+        return None, ("the transformed request is produced inside a helper this rule does not see into" if other and not calls else
+                      f"{len(calls)} requests are built with self.c2http.{route}.transform(..): which one is sent is not followed"), None
+    tcall = calls[0][0]
+    fv = FuncView.of(f.node)
+    ps = set(params(f.node))
+
+    def is_req(e, at, depth=0):
+        """Does expression e, evaluated in statement `at`, denote the transformed request?"""
+        e = strip_cast(e)
+        if e is tcall:
+            return True
+        if isinstance(e, ast.Name) and e.id not in ps and depth < 6:
+            rd = reaching_defs(ctx, f, e.id, at)
+            return bool(rd) and all(v is not None and isinstance(s, ast.stmt) and not isinstance(s, (ast.For, ast.AsyncFor, ast.With, ast.AsyncWith)) and is_req(v, s, depth + 1) for s, v in rd)
+        return False
+
+    stop = set()  # ids of call nodes whose *result* is not a form of the request (the located send call: its value is the response)
+    visited = set()
+
+    def mentions(e, at, expand, depth=0):
+        """(fields of the transformed request read inside expression e, is the request used as a whole?).  With
+        `expand`, single-definition temporaries (also the elements of an unpacked value) are followed to their defining
+        expression."""
+        got, whole = set(), False
+        todo = [e]
+        while todo:
+            n = todo.pop()
+            if isinstance(n, ast.Call):
+                if id(n) in stop and (n is not e or depth):
+                    continue
+                visited.add(id(n))
+            if n is tcall and n is not e:
+                whole = True
+                continue
+            if isinstance(n, ast.Attribute) and n.attr in fields and is_req(n.value, at):
+                got.add(n.attr)
+                continue
+            if isinstance(n, ast.Subscript) and isinstance(_c(n.slice), int) and -len(fields) <= _c(n.slice) < len(fields) and is_req(n.value, at):
+                got.add(fields[_c(n.slice)])
+                continue
+            if isinstance(n, ast.Attribute) and is_req(n.value, at):
+                whole = True  # a method / property of the request object (_asdict, _replace ...)
+                continue
+            if isinstance(n, ast.Name):
+                if is_req(n, at):
+                    whole = True
+                elif expand and depth < 6 and n.id not in ps and isinstance(n.ctx, ast.Load):
+                    ds = stores.get(n.id, [])
+                    if len(ds) == 1 and ds[0][1] is not None and isinstance(ds[0][0], ast.stmt):
+                        g2, w2 = mentions(ds[0][1], ds[0][0], expand, depth + 1)
+                        got |= g2
+                        whole = whole or w2
+                continue
+            todo.extend(ast.iter_child_nodes(n))
+        return got, whole
+
+    def is_package_call(c):
+        cal = _callee(ctx, f, c)
+        return cal is not None and cal.kind in ("func", "class", "struct")
+
+    # statements whose whole effect is a call the result of which is thrown away (logging and the like) cannot be where
+    # the response comes from
+    def diagnostic(st):
+        return isinstance(st, ast.Expr) and isinstance(st.value, ast.Call)
+
+    def survey():
+        cands, handed = [], []
+        for c in fn_calls(f.node):
+            st = fv.stmt_of(c)
+            if c is tcall or st is None or not ctx.cfg(f).has(st):
+                continue
+            got, whole = set(), False
+            visited.clear()
+            for a in [c.func] + list(c.args) + [k.value for k in c.keywords]:
+                g2, w2 = mentions(a.value if isinstance(a, ast.Starred) else a, st, True)
+                got |= g2
+                whole = whole or w2
+            if not got and not whole:
+                continue
+            if is_package_call(c):
+                handed.append(c)
+            elif not diagnostic(st):
+                cands.append((c, st, got, whole, set(visited)))
+        return cands, handed
+
+    cands, handed = survey()
+    if not cands:
+        return None, ("the transformed request is handed to " + ", ".join(sorted({src(c.func) for c in handed})) + ", which this rule does not see into" if handed
+                      else "no call whose result is used receives a field of the transformed request: the call that sends it is not located"), tcall
+    # the call with the widest view of the request; of several, the one that does not itself consume the result of another
+    # (what is computed from the response is not the request)
+    ids = {id(x[0]) for x in cands}
+    best = max(cands, key=lambda x: (len(x[2]), not x[3], -len(x[4] & ids)))
+    stop.add(id(best[0]))
+    _c2, handed = survey()
+    c, st, got, whole, _seen = best
+    missing = [x for x in fields if x not in got]
+    shown = src(c.func)
+    if not missing:
+        return True, f"{shown}(..) receives every field of the transformed request ({', '.join(fields)})", c
+    # does a missing field go somewhere else this rule cannot follow (a keyword dictionary filled in steps, a second
+    # call, a helper)?  Then the sender is not fully located.
+    elsewhere = []
+    if whole:
+        elsewhere.append(f"the request as a whole is passed to {shown}(..)")
+    inside = {id(x) for x in ast.walk(c)}
+
+    def heads(s2):
+        """The expressions a statement evaluates itself (not those of the statements nested in it)."""
+        if isinstance(s2, (ast.If, ast.While)):
+            return [s2.test]
+        if isinstance(s2, (ast.For, ast.AsyncFor)):
+            return [s2.iter]
+        if isinstance(s2, (ast.With, ast.AsyncWith)):
+            return [it.context_expr for it in s2.items]
+        return [] if hasattr(s2, "body") or hasattr(s2, "cases") else [s2]
+
+    loaded = {n.id for s2 in statements(f.node) if not diagnostic(s2) for h in heads(s2) for n in ast.walk(h) if isinstance(n, ast.Name) and isinstance(n.ctx, ast.Load)}
+    for s2 in statements(f.node):
+        if diagnostic(s2) or not ctx.cfg(f).has(s2):
+            continue
+        if isinstance(s2, (ast.Assign, ast.AnnAssign)):
+            tg = [x for t in (s2.targets if isinstance(s2, ast.Assign) else [s2.target]) for x in (t.elts if isinstance(t, (ast.Tuple, ast.List)) else [t])]
+            if all(isinstance(t, ast.Name) and t.id not in loaded for t in tg):
+                continue  # computed into locals nothing reads (other than log statements): goes nowhere
+        for h in heads(s2):
+            parent = {id(ch): n for n in ast.walk(h) for ch in ast.iter_child_nodes(n)}
+            for n in ast.walk(h):
+                if id(n) in inside or not isinstance(n, ast.Name) or not isinstance(n.ctx, ast.Load) or not is_req(n, s2):
+                    continue
+                par = parent.get(id(n))
+                fld = par.attr if isinstance(par, ast.Attribute) and par.value is n and par.attr in fields else \
+                    fields[_c(par.slice)] if isinstance(par, ast.Subscript) and par.value is n and isinstance(_c(par.slice), int) and -len(fields) <= _c(par.slice) < len(fields) else None
+                if par is s2 and isinstance(s2, (ast.Assign, ast.AnnAssign)) and s2.value is n:
+                    continue  # a plain copy: followed by is_req
+                if fld is None:
+                    elsewhere.append(f"the request as a whole is used in `{src(s2)[:50]}`")
+                elif fld in missing:
+                    elsewhere.append(f"`{src(par)}` is used in `{src(s2)[:50]}`")
+    detail = f"{shown}(..) receives {sorted(got)} of the transformed request but not {missing}"
+    if elsewhere or handed:
+        why = elsewhere + ([f"the request is handed to {sorted({src(h.func) for h in handed})}"] if handed else [])
+        return None, detail + "; " + "; ".join(sorted(set(why))[:3]) + " - where that goes is not followed", c
+    return False, detail + ": whatever the transform placed there (a header / parameter / uri-append / print placement of the profile) never reaches the wire", c
+
+
+def r9(ctx):
+    """What the transform produced is what is sent: every field of the HttpRequest returned by
+    `self.c2http.<route>.transform(..)` (method, uri, params, headers, body - a profile may place the metadata / id /
+    output in any of uri, params, headers, body and the routing needs method and uri) flows into the one call that puts
+    the request on the wire."""
+    fields = _request_fields(ctx)
+    for fq, route, what in (("client.HttpBeaconClient.get_task", "transform_get", "check-in"), ("client.HttpBeaconClient.send_callback", "transform_submit", "callback")):
+        f = ctx.repo.func(fq)
+        text = f"{what}: every field of the transformed request is sent"
+        if not fields:
+            ctx.undecided("R9", "AGREE", f, text, "the fields of c2.HttpRequest are not declared in a form this rule can read")
+            continue
+        verdict, detail, node = _sent_request(ctx, f, _stores(f.node), route, fields)
+        _emit(ctx, "R9", "AGREE", f, text, verdict, detail, node)
+
+
+# ---------------------------------------------------------------------------- R10: the message parser cuts at the first separator
+_CUTS = ("partition", "rpartition", "split", "rsplit")
+_FINDS = {"find": "first", "index": "first", "rfind": "last", "rindex": "last"}
+
+
+def _cut_class(f, stores, e, depth=0):
+    """Which part of a separated string does expression e denote?  Def-use substitution (single-definition locals, the
+    elements of an unpacked value) down to `<s>.partition/rpartition/split/rsplit(<sep>[, n])[i]` or a slice of <s> at
+    `<s>.find/index/rfind/rindex(<sep>)`, then the lemma on those builtins:
+      partition(sep): [0] = text before the FIRST sep, [2] = everything after the first sep;
+      rpartition(sep): [0] = everything before the LAST sep, [2] = text after the last sep;
+      split(sep, 1): [0] / [1] as partition [0] / [2];  rsplit(sep, 1): [0] / [1] as rpartition [0] / [2];
+      split(sep) / rsplit(sep) without a limit (or a limit > 1): [0] = text before the first sep, every other element is
+      a piece *between* two separators (the remainder is cut again).
+    Result: ('head-first' | 'rest-first' | 'head-last' | 'rest-last' | 'piece' | 'sep' | None, separator constant, text)
+    or a list of such results for the non-constant alternatives of a conditional expression."""
+    e = strip_cast(e)
+    if depth > 8:
+        return [(None, None, src(e))]
+    if isinstance(e, ast.IfExp):
+        out = []
+        for alt in (e.body, e.orelse):
+            if not isinstance(alt, ast.Constant):
+                out += _cut_class(f, stores, alt, depth + 1)
+        return out
+    if isinstance(e, ast.Name):
+        ds = stores.get(e.id, [])
+        if len(ds) == 1 and ds[0][1] is not None and e.id not in params(f.node):
+            return _cut_class(f, stores, ds[0][1], depth + 1)
+        return [(None, None, src(e))]
+
+    def subject(x, d=0):
+        x = strip_cast(x)
+        if isinstance(x, ast.Name) and d < 8:
+            ds = stores.get(x.id, [])
+            if len(ds) == 1 and ds[0][1] is not None and x.id not in params(f.node):
+                return subject(ds[0][1], d + 1)
+        return x
+
+    if isinstance(e, ast.Subscript) and not isinstance(e.slice, ast.Slice):
+        i = _c(e.slice)
+        base = subject(e.value)
+        if isinstance(i, int) and not isinstance(i, bool) and isinstance(base, ast.Call) and isinstance(base.func, ast.Attribute) and base.func.attr in _CUTS:
+            m = base.func.attr
+            sep = _c(base.args[0]) if base.args else None
+            lim = base.args[1] if len(base.args) > 1 else next((k.value for k in base.keywords if k.arg == "maxsplit"), None)
+            text = src(ast.Subscript(value=base, slice=e.slice, ctx=ast.Load()))
+            if not isinstance(sep, (bytes, str)) or not sep or any(k.arg != "maxsplit" for k in base.keywords):
+                return [(None, None, text)]
+            if m in ("partition", "rpartition"):
+                kind = {0: "head", -3: "head", 1: "sep", -2: "sep", 2: "rest", -1: "rest"}.get(i)
+                return [(None if kind is None else "sep" if kind == "sep" else f"{kind}-{'first' if m == 'partition' else 'last'}", sep, text)]
+            n = _c(lim) if lim is not None else -1
+            if not isinstance(n, int):
+                return [(None, sep, text)]
+            if n == 1:
+                kind = {0: "head", 1: "rest", -1: "rest", -2: "head"}.get(i)
+                return [(None if kind is None else f"{kind}-{'first' if m == 'split' else 'last'}", sep, text)]
+            if n == 0:
+                return [(None, sep, text)]
+            # no limit / a limit above one: the list is the same for split and rsplit when there is no limit
+            if i == 0 and (m == "split" or n < 0):
+                return [("head-first", sep, text)]
+            if i == -1 and (m == "rsplit" or n < 0) and n < 0:
+                return [("rest-last", sep, text)]
+            return [("piece", sep, text)]
+        return [(None, None, src(e))]
+    if isinstance(e, ast.Subscript) and isinstance(e.slice, ast.Slice) and e.slice.step is None:
+        lo, hi = e.slice.lower, e.slice.upper
+
+        def find_of(x):
+            """(first|last, sep, extra offset expression) of an index expression `<s>.find(sep)` [+ k]."""
+            x = subject(x)
+            off = None
+            if isinstance(x, ast.BinOp) and isinstance(x.op, ast.Add):
+                a, b = subject(x.left), subject(x.right)
+                if isinstance(b, ast.Call) and isinstance(b.func, ast.Attribute) and b.func.attr in _FINDS:
+                    a, b = b, a
+                x, off = a, b
+            if isinstance(x, ast.Call) and isinstance(x.func, ast.Attribute) and x.func.attr in _FINDS and len(x.args) == 1 and not x.keywords and src(subject(x.func.value)) == src(subject(e.value)):
+                sep = _c(x.args[0])
+                if isinstance(sep, (bytes, str)) and sep:
+                    return _FINDS[x.func.attr], sep, off, x.args[0]
+            return None
+
+        if lo is None and hi is not None:
+            r = find_of(hi)
+            if r and r[2] is None:
+                return [(f"head-{r[0]}", r[1], src(e))]
+        if hi is None and lo is not None:
+            r = find_of(lo)
+            if r and r[2] is not None:
+                k = _c(r[2])
+                same_len = k == len(r[1]) or (isinstance(r[2], ast.Call) and dotted(r[2].func) == "len" and len(r[2].args) == 1 and _c(subject(r[2].args[0])) == r[1])
+                if same_len:
+                    return [(f"rest-{r[0]}", r[1], src(e))]
+        return [(None, None, src(e))]
+    return [(None, None, src(e))]
+
+
+def _judge_cut(f, stores, e, role):
+    """(verdict, detail) for an expression that has to be the text before (`role` 'head') / everything after ('rest') the
+    FIRST occurrence of a separator."""
+    res = _cut_class(f, stores, e)
+    if not res:
+        return None, f"{src(e)}: no non-constant alternative"
+    verdicts, shown = [], []
+    for kind, sep, text in res:
+        shown.append(f"{text} is {'not a cut this rule understands' if kind is None else kind.replace('-', ' of the ') + ' separator' if kind not in ('piece', 'sep') else 'one piece between two separators' if kind == 'piece' else 'the separator itself'}")
+        verdicts.append(None if kind is None else kind == f"{role}-first")
+    return (False if any(v is False for v in verdicts) else None if any(v is None for v in verdicts) else True), "; ".join(shown)
+
+
+def r10(ctx):
+    """The parser of raw messages is the inverse of HTTP framing for every payload: the body is *everything* after the first
+    blank line (it is arbitrary transformed data and may contain CRLF CRLF), a header value is *everything* after the
+    first `: ` of its line (a profile's printable prepend/append text may contain `: `), a header name is the text before
+    that first separator."""
+    f = ctx.repo.func("c2.parse_raw_http")
+    stores = _stores(f.node)
+    ctors = []
+    for c in fn_calls(f.node):
+        if _fq(ctx, f, c) in (_REQ, _RESP):
+            ctors.append(c)
+    if not ctors:
+        ctx.undecided("R10", "AGREE", f, "body = everything after the first blank line", "no HttpRequest(..)/HttpResponse(..) built in the parser")
+        ctx.undecided("R10", "AGREE", f, "header value = everything after the first separator of its line", "no HttpRequest(..)/HttpResponse(..) built in the parser")
+        return
+    hdr_names = set()
+    for c in ctors:
+        b = _bind(ctx, f, c)
+        cls = _fq(ctx, f, c).split(".")[-1]
+        body = b.get("body")
+        if "**" in b or body is None:
+            ctx.undecided("R10", "AGREE", f, f"{cls}: body = everything after the first blank line", f"arguments of {src(c)[:60]} cannot be bound to the fields", c)
+        else:
+            verdict, detail = _judge_cut(f, stores, body, "rest")
+            _emit(ctx, "R10", "AGREE", f, f"{cls}: body = everything after the first blank line", verdict,
+                  detail + (": a body that contains the separator again is truncated / the head is mis-split" if verdict is False else ""), c)
+        h = b.get("headers")
+        if "**" not in b and isinstance(h, ast.Name):
+            hdr_names.add(h.id)
+        else:
+            hdr_names.add(None)
+    text_v = "header value = everything after the first separator of its line"
+    text_k = "header name = the text before the first separator of its line"
+    if None in hdr_names or len(hdr_names) != 1:
+        ctx.undecided("R10", "AGREE", f, text_v, "the headers passed to HttpRequest(..)/HttpResponse(..) are not one local dictionary this rule can follow")
+        return
+    name = next(iter(hdr_names))
+    fills = [st for st in statements(f.node) if isinstance(st, ast.Assign) and len(st.targets) == 1 and isinstance(st.targets[0], ast.Subscript) and dotted(st.targets[0].value) == name]
+    whole = [v for _s, v in stores.get(name, []) if not (isinstance(v, ast.Dict) and not v.keys) and not (isinstance(v, ast.Call) and dotted(v.func) == "dict" and not v.args and not v.keywords)]
+    if not fills or whole:
+        ctx.undecided("R10", "AGREE", f, text_v, f"the header dictionary is not filled by `{name}[<name>] = <value>` stores alone" + (f" (built by {src(whole[0])[:50] if whole[0] is not None else 'an update in place'})" if whole else ""))
+        return
+    for i, st in enumerate(fills):
+        suffix = "" if len(fills) == 1 else f" (store {i + 1})"
+        kv, kd = _judge_cut(f, stores, st.targets[0].slice, "head")
+        vv, vd = _judge_cut(f, stores, st.value, "rest")
+        seps = {s for _k, s, _t in _cut_class(f, stores, st.value) + _cut_class(f, stores, st.targets[0].slice) if s is not None}
+        if vv is True and kv is True and len(seps) != 1:
+            vv, vd = None, vd + f"; name and value are cut at different separators {sorted(map(repr, seps))}"
+        _emit(ctx, "R10", "AGREE", f, text_v + suffix, vv, vd + (": a value that itself contains the separator is truncated or the whole header is lost, so a `header` placement of the profile "
+                                                                  "whose prepend/append text contains it cannot be recovered" if vv is False else ""), st)
+        _emit(ctx, "R10", "AGREE", f, text_k + suffix, kv, kd + (": the name would swallow part of a value that contains the separator" if kv is False else ""), st)
 
 
 def r5(ctx):
